@@ -67,6 +67,20 @@ REQUIRED_OBJ = {
 }
 
 
+def _dtype_value(prog, module, node):
+    """the dtype an expression names: a literal, or a module-level constant that holds one (`_F4 = ">f4"`)"""
+    if isinstance(node, ast.Constant):
+        return node.value
+    if isinstance(node, ast.Name):
+        try:
+            v = prog.const_eval(module, node)
+            if isinstance(v, str):
+                return v
+        except AnalysisError:
+            pass
+    return norm(node)
+
+
 def run(chk):
     prog = chk.prog
     for kind, ver, w, r in PAIRS:
@@ -120,8 +134,8 @@ def _writer_table(chk, wf):
         chk.require(len(fields) == 1, f"{wf.key}: tuple element `{short(el, 40)}` derives from fields {sorted(fields)} - cannot name one source field")
         dtype = None
         for c in ast.walk(src):
-            if isinstance(c, ast.Call) and isinstance(c.func, ast.Attribute) and c.func.attr == "astype" and c.args and isinstance(c.args[0], ast.Constant):
-                dtype = c.args[0].value
+            if isinstance(c, ast.Call) and isinstance(c.func, ast.Attribute) and c.func.attr == "astype" and c.args:
+                dtype = _dtype_value(chk.prog, wf.module, c.args[0])
         tob = any(isinstance(c, ast.Call) and isinstance(c.func, ast.Attribute) and c.func.attr == "tobytes" for c in ast.walk(src))
         table.append(dict(field=fields.pop(), dtype=dtype, bytes=tob, node=el, comp=comp))
     return table
@@ -183,7 +197,7 @@ def _reader_table(chk, rf):
             chk.require(len(fb) == 1 and fb[0].args and isinstance(fb[0].args[0], ast.Name), f"{rf.key}: frombuffer idiom")
             data = fb[0].args[0].id
             dt = kwarg(fb[0], "dtype")
-            dtype = dt.value if isinstance(dt, ast.Constant) else norm(dt) if dt is not None else None
+            dtype = _dtype_value(chk.prog, rf.module, dt) if dt is not None else None
             rs = [c for c in ast.walk(v) if isinstance(c, ast.Call) and isinstance(c.func, ast.Attribute) and c.func.attr == "reshape"]
             if rs:
                 chk.require(len(rs) == 1, f"{rf.key}: more than one reshape")
